@@ -131,11 +131,25 @@ func (o *outcome) label(format string, args ...any) {
 	o.labels = append(o.labels, fmt.Sprintf(format, args...))
 }
 
-// preciseFamilies: fault families whose offending node is beyond doubt (see evalMutant).
-var preciseFamilies = map[string]bool{
-	"retype": true, "wrong-kind": true, "empty": true, "escape": true,
-	"num-integer-keyword": true, "num-keyword": true,
-	// not "num-other": a bad number among enum values is reported at the enum list
+// precise: faults whose new value is invalid IN ITSELF (another kind, a broken
+// escape in a key, a non-number or an out-of-range literal where an unsigned
+// integer is required): the offending node is beyond doubt. Faults that keep a
+// valid kind ("" for a string, 0 or -1 for minimum) only break relations
+// (default ∈ enum, minLength ≤ maxLength, name used by a path template) and
+// are legitimately reported at the other end of the relation.
+func precise(label, arg string) bool {
+	switch label {
+	case "retype", "wrong-kind", "escape":
+		return true
+	case "num-integer-keyword":
+		switch arg {
+		case "x", "1e400", "99999999999999999999", "9223372036854775808", "-9223372036854775809", "-1", "1.5":
+			return true
+		}
+	case "num-keyword":
+		return arg == "x"
+	}
+	return false
 }
 
 // nameLike: the faulted value is a name that other places refer to (a parameter
@@ -337,7 +351,7 @@ func evalMutant(c mutCase) (o outcome) {
 			// number, a bad escape in a key) leave no room for doubt about the
 			// offending node: the position must be that entry (key or value) or
 			// lie inside it, not at an ancestor or a neighbour.
-			if preciseFamilies[a.Label] && !nameLike(a.Target) && lab != "at-fault" && lab != "inside-fault" && lab != "unattributed" && lab != "not-at-a-node-start" {
+			if precise(a.Label, c.Arg) && !nameLike(a.Target) && lab != "at-fault" && lab != "inside-fault" && lab != "unattributed" && lab != "not-at-a-node-start" {
 				cands := ixJ.at(l.Line, l.Col)
 				where := "?"
 				if len(cands) > 0 {
